@@ -323,6 +323,9 @@ struct Oracle<'a> {
     unwound: HashSet<(u32, Point)>,
     n_panics_caught: u64,
     n_spans_unwound: u64,
+    n_cancelled: u64,
+    n_cancelled_unpolled: u64,
+    n_cancelled_frames: u64,
     // measurements
     n_reads: u64,
     n_span_events: u64,
@@ -411,6 +414,7 @@ fn via_name(v: &Via) -> &'static str {
         Via::Header { .. } => "header",
         Via::Remote => "remote",
         Via::Catch => "catch",
+        Via::Cancel { .. } => "cancelled-future",
     }
 }
 
@@ -449,6 +453,9 @@ impl<'a> Oracle<'a> {
             unwound: HashSet::new(),
             n_panics_caught: 0,
             n_spans_unwound: 0,
+            n_cancelled: 0,
+            n_cancelled_unpolled: 0,
+            n_cancelled_frames: 0,
             n_reads: 0,
             n_span_events: 0,
             n_events: 0,
@@ -532,7 +539,7 @@ impl<'a> Oracle<'a> {
         let k = kind(node);
         if node.unwinds {
             let last = (node.steps.len().max(1) - 1) as u16;
-            for p in [Point::Exit, Point::After(last), Point::ViaOut(last), Point::HopOut(last)] {
+            for p in [Point::Exit, Point::After(last), Point::ViaOut(last), Point::HopOut(last), Point::Resume(last)] {
                 self.unwound.insert((node.id, p));
             }
             self.n_spans_unwound += 1;
@@ -819,6 +826,30 @@ impl<'a> Oracle<'a> {
                             }
                             inside.clone()
                         }
+                        Via::Cancel { polls } => {
+                            // the child's future was polled `polls` times and dropped: every span of the
+                            // chain completes in its own frame (own ids / parent, judged below as usual),
+                            // and the `After` read must show this node's ambient ids again
+                            match self.run.caught.iter().find(|(n, s, _)| *n == node.id && *s == i) {
+                                Some((_, _, false)) => {}
+                                other => self.bad(
+                                    "interpreter:cancelled-future-finished-or-missing".into(),
+                                    format!("node {} step {}: {:?}", node.id, i, other),
+                                ),
+                            }
+                            if *polls == 0 {
+                                // never polled: nothing of it may have run (its events would be unexplained)
+                                if self.obs.contains_key(&(child.id, Point::Enter)) {
+                                    self.bad("cancelled:never-polled-future-ran".into(), format!("node {} ran although its future was never polled", child.id));
+                                }
+                                self.n_cancelled_unpolled += 1;
+                                self.expect_reads(node.id, Point::After(i), &inside.ids, true, "cancelled:ambient-not-restored:after-dropping-an-unpolled-future");
+                                continue;
+                            }
+                            self.n_cancelled += 1;
+                            self.n_cancelled_frames += *polls as u64;
+                            inside.clone()
+                        }
                         Via::Header { .. } | Via::Remote => unreachable!("not generated for C04"),
                     };
                     let around = outer.ids;
@@ -1030,6 +1061,9 @@ fn eval<X: Env>(r: &mut Report, seed: u64, index: u64, tree: &Node) {
     r.observe("non-span-frames-with-own-props", o.n_plain);
     r.observe("new_span-pairs", o.n_manual);
     r.observe("panics-unwound-and-caught", o.n_panics_caught);
+    r.observe("futures-cancelled-while-suspended", o.n_cancelled);
+    r.observe("span-frames-dropped-by-a-cancellation", o.n_cancelled_frames);
+    r.observe("futures-dropped-without-a-poll", o.n_cancelled_unpolled);
     r.observe("spans-and-frames-a-panic-unwound-through", o.n_spans_unwound);
     r.observe("rejected-span-frames-entered-away-from-creation", o.n_rejected_frames_travelled);
     r.observe("incoming-integer-ids-with-16-and-32-decimal-digits", o.n_decimal_looking);
